@@ -207,10 +207,29 @@ theorem first (c : LB seq base mj e e2 e4 off n r Tb Tt) (s : St) (O : List Tk) 
 end LB
 
 /-- what a function on encoder states does, semantically (as `EvOk` / `SegOk`, for any encoder) -/
-def StepOk (f : Enc → Except CErr Enc) (e : Enc) (T : List Tk) : Prop :=
+def StepOk (C : List Nat → Nat → Nat → Prop) (f : Enc → Except CErr Enc) (e : Enc) (T : List Tk) : Prop :=
   ∃ e', f e = .ok e' ∧
-    ∀ (seq : List Nat) (base mj : Nat) (s : St) (O : List Tk), e'.out <+: seq → Good e s O →
+    ∀ (seq : List Nat) (base mj : Nat) (s : St) (O : List Tk), C seq base mj → e'.out <+: seq → Good e s O →
       ∃ s1, Reach seq base mj s s1 ∧ Frame s s1 ∧ Good e' s1 (T.reverse ++ O)
+
+mutual
+theorem noCall_callsOk (seq : List Nat) (base mj : Nat) : ∀ (t : Node), t.noCall = true → t.callsOk seq base mj
+  | .ev _, _ => by simp [Node.callsOk]
+  | .xbrk, _ => by simp [Node.callsOk]
+  | .call _ _, h => by simp [Node.noCall] at h
+  | .loop body _, h => by
+    simp only [Node.callsOk]; exact noCallL_callsOkL seq base mj body (by simpa [Node.noCall] using h)
+  | .loopB body tail _, h => by
+    simp only [Node.noCall, Bool.and_eq_true] at h
+    simp only [Node.callsOk]
+    exact ⟨noCallL_callsOkL seq base mj body h.1, noCallL_callsOkL seq base mj tail h.2⟩
+theorem noCallL_callsOkL (seq : List Nat) (base mj : Nat) : ∀ (ts : List Node), noCallL ts = true → callsOkL seq base mj ts
+  | [], _ => by simp [callsOkL]
+  | t :: ts, h => by
+    simp only [noCallL, Bool.and_eq_true] at h
+    simp only [callsOkL]
+    exact ⟨noCall_callsOk seq base mj t h.1, noCallL_callsOkL seq base mj ts h.2⟩
+end
 
 /-- entering a loop: the pending note is resolved by the `LP` byte, a frame is pushed -/
 theorem enter_loop {e : Enc} {s : St} {O : List Tk} {rest : List Nat} (g : Good e s O)
@@ -236,23 +255,33 @@ theorem enter_loop {e : Enc} {s : St} {O : List Tk} {rest : List Nat} (g : Good 
 
 mutual
 /-- **decoding the structured encoder**: every bracket structure over the linear fragment -/
-theorem encN_sim (nS nM : Nat) : ∀ (t : Node), t.lin = true → ∀ e : Enc, StepOk (encN nS nM t) e (t.exp nS nM)
+theorem encN_sim (nS nM : Nat) : ∀ (t : Node), t.lin = true → ∀ e : Enc,
+    StepOk (fun seq base mj => t.callsOk seq base mj) (encN nS nM t) e (t.exp nS nM)
   | .ev ev, hl, e => by
     obtain ⟨e', h, _, _, _, sem⟩ := encEv_lin nS nM e ev (by simpa [Node.lin] using hl)
-    exact ⟨e', by simpa [encN] using h, by simpa [Node.exp] using sem⟩
+    exact ⟨e', by simpa [encN] using h, fun seq base mj s O _ hp g => by simpa [Node.exp] using sem seq base mj s O hp g⟩
+  | .xbrk, _, e =>
+    ⟨e, rfl, fun _ _ _ s O _ _ g => ⟨s, .refl _, Frame.rfl' _, by simpa [Node.exp] using g⟩⟩
+  | .call arg T, _, e => by
+    refine ⟨afterPAT e arg, rfl, ?_⟩
+    intro seq base mj s O hc hp g
+    simp only [Node.callsOk] at hc
+    obtain ⟨t, ht, hsub⟩ := hc
+    simpa [Node.exp] using pat_good g arg hp ht hsub
   | .loop body n, hl, e => by
     have hl' : linL body = true := by simpa [Node.lin] using hl
     obtain ⟨e2, h2, sem2⟩ := encL_sim nS nM body hl' (afterLP e)
     obtain ⟨_, h2', p2, _, _⟩ := encL_total nS nM body hl' (afterLP e)
     rw [h2] at h2'; injection h2' with h2'; subst h2'
     refine ⟨afterLPF e2 n e.breaks, by simp [encN, h2], ?_⟩
-    intro seq base mj s O hp g
+    intro seq base mj s O hc hp g
+    simp only [Node.callsOk] at hc
     have pF : e2.out <+: (afterLPF e2 n e.breaks).out := List.prefix_append _ _
     have hp1 : e.out ++ mds_LP :: [] <+: seq := p2.trans (pF.trans hp)
     obtain ⟨s1, r1, g1, hl1, hc1, hd1, hj1⟩ := enter_loop (base := base) (mj := mj) g hp1
     obtain ⟨s', r', g', hl', hc', hd', hj'⟩ := loop_first (base := base) (mj := mj) (n := n)
       (eF := afterLPF e2 n e.breaks)
-      (fun s O g => sem2 seq base mj s O (pF.trans hp) g) rfl rfl rfl (show mds_LPF ≥ 0xe0 by decide) rfl rfl
+      (fun s O g => sem2 seq base mj s O hc (pF.trans hp) g) rfl rfl rfl (show mds_LPF ≥ 0xe0 by decide) rfl rfl
       (needLenB_cmd (show mds_LP ≥ 0xe0 by decide)) hp s1 O s.loops g1 hl1
     refine ⟨s', r1.trans r', ⟨hl', hc'.trans hc1, hd'.trans hd1, hj'.trans hj1⟩, ?_⟩
     simpa [Node.exp] using g'
@@ -277,20 +306,21 @@ theorem encN_sim (nS nM : Nat) : ∀ (t : Node), t.lin = true → ∀ e : Enc, S
       simp [afterLPB] at h1 h2 h3
       omega
     refine ⟨afterLPFB e4' n e.breaks, by simp [encN, h2, h4, ← hoff, h4'], ?_⟩
-    intro seq base mj s O hp g
+    intro seq base mj s O hc hp g
+    simp only [Node.callsOk] at hc
     have pF : e4'.out <+: (afterLPFB e4' n e.breaks).out := List.prefix_append _ _
     have pC : e2.out <+: (afterLPB e2 (brkCmd off)).out := List.prefix_append _ _
     have hp1 : e.out ++ mds_LP :: [] <+: seq := p2.trans (pC.trans (p4'.trans (pF.trans hp)))
     obtain ⟨s1, r1, g1, hl1, hc1, hd1, hj1⟩ := enter_loop (base := base) (mj := mj) g hp1
     have c : LB seq base mj e e2 e4' off n e.breaks (expL nS nM body) (expL nS nM tail) :=
-      ⟨fun s O g => semB seq base mj s O (pC.trans (p4'.trans (pF.trans hp))) g,
-       fun s O g => semT seq base mj s O (pF.trans hp) g, hp, p4', htgt⟩
+      ⟨fun s O g => semB seq base mj s O hc.1 (pC.trans (p4'.trans (pF.trans hp))) g,
+       fun s O g => semT seq base mj s O hc.2 (pF.trans hp) g, hp, p4', htgt⟩
     obtain ⟨s', r', g', hl', hc', hd', hj'⟩ := c.first s1 O s.loops g1 hl1
     refine ⟨s', r1.trans r', ⟨hl', hc'.trans hc1, hd'.trans hd1, hj'.trans hj1⟩, ?_⟩
     simpa [Node.exp] using g'
 theorem encL_sim (nS nM : Nat) : ∀ (ts : List Node), linL ts = true → ∀ e : Enc,
-    StepOk (encL nS nM ts) e (expL nS nM ts)
-  | [], _, e => ⟨e, rfl, fun _ _ _ s O _ g => ⟨s, .refl _, Frame.rfl' _, by simpa [expL] using g⟩⟩
+    StepOk (fun seq base mj => callsOkL seq base mj ts) (encL nS nM ts) e (expL nS nM ts)
+  | [], _, e => ⟨e, rfl, fun _ _ _ s O _ _ g => ⟨s, .refl _, Frame.rfl' _, by simpa [expL] using g⟩⟩
   | t :: ts, hl, e => by
     simp only [linL, Bool.and_eq_true] at hl
     obtain ⟨e1, h1, sem1⟩ := encN_sim nS nM t hl.1 e
@@ -298,26 +328,29 @@ theorem encL_sim (nS nM : Nat) : ∀ (ts : List Node), linL ts = true → ∀ e 
     obtain ⟨_, h2', p2, _, _⟩ := encL_total nS nM ts hl.2 e1
     rw [h2] at h2'; injection h2' with h2'; subst h2'
     refine ⟨e2, by simp [encL, h1, h2], ?_⟩
-    intro seq base mj s O hp g
-    obtain ⟨s1, r1, f1, g1⟩ := sem1 seq base mj s O (p2.trans hp) g
-    obtain ⟨s2, r2, f2, g2⟩ := sem2 seq base mj s1 _ hp g1
+    intro seq base mj s O hc hp g
+    simp only [callsOkL] at hc
+    obtain ⟨s1, r1, f1, g1⟩ := sem1 seq base mj s O hc.1 (p2.trans hp) g
+    obtain ⟨s2, r2, f2, g2⟩ := sem2 seq base mj s1 _ hc.2 hp g1
     exact ⟨s2, r1.trans r2, f1.trans f2, by simpa [expL, List.reverse_append, List.append_assoc] using g2⟩
 end
 
 /-- **C02, counted loops with and without break, nested to any depth.**  The structured encoding
 exists; if it (with the terminator) is shorter than 64 KiB it is what `convert_track` produces, and
 the interpreter plays exactly the loop expansion. -/
-theorem codec_roundtrip_loops (nS nM : Nat) (ts : List Node) (hl : linL ts = true) (farg : Nat) :
+theorem codec_roundtrip_loops (nS nM : Nat) (ts : List Node) (hl : linL ts = true) (hk : brkOkL false ts = true)
+    (hnc : noCallL ts = true) (farg : Nat) :
     ∃ e', encL nS nM ts {} = .ok e' ∧
       (e'.out.length + 1 < 65536 →
         convertTrack nS nM (flatL ts ++ [⟨mds_FINISH, farg⟩]) = .ok (e'.out ++ [mds_FINISH]) ∧
         ∀ (base mj : Nat) (ln lr : Option Nat), Plays (e'.out ++ [mds_FINISH]) base mj ln lr (expL nS nM ts)) := by
   obtain ⟨e1, he1, sem⟩ := encL_sim nS nM ts hl {}
   refine ⟨e1, he1, fun hb => ⟨?_, ?_⟩⟩
-  · have := encL_eq nS nM ts hl {} e1 he1 (by omega)
+  · have := encL_eq nS nM ts false hl hk {} e1 (fun h => by cases h) he1 (by omega)
     simp [convertTrack, encAll_append, this, encAll, encEv_finish, Except.map]
   · intro base mj ln lr
-    obtain ⟨s1, r1, f1, g1⟩ := sem (e1.out ++ [mds_FINISH]) base mj _ [] (List.prefix_append _ _) (good_init ln lr)
+    obtain ⟨s1, r1, f1, g1⟩ := sem (e1.out ++ [mds_FINISH]) base mj _ [] (noCallL_callsOkL _ _ _ ts hnc)
+      (List.prefix_append _ _) (good_init ln lr)
     obtain ⟨s2, r2, hfin, ho⟩ := finish_run (base := base) (mj := mj) g1 (f1.calls) (List.prefix_refl _)
     exact ⟨s2, r1.trans r2, hfin, by simpa using ho⟩
 
